@@ -98,11 +98,14 @@ fn rol31(x: u32, k: u32) -> u64 {
 
 impl Zuc {
     pub fn new(key: &[u8; 16], iv: &[u8; 16]) -> Self {
+        Self::new_impl(key, iv, false)
+    }
+    fn new_impl(key: &[u8; 16], iv: &[u8; 16], cov: bool) -> Self {
         let mut s = [0u32; 16];
         for i in 0..16 {
             s[i] = ((key[i] as u32) << 23) | (D[i] << 8) | iv[i] as u32;
         }
-        let mut z = Zuc { s, r1: 0, r2: 0, x: [0; 4], cov: None };
+        let mut z = Zuc { s, r1: 0, r2: 0, x: [0; 4], cov: if cov { Some(SboxCov { hit: vec![[0; 256]; 4], s16_zero: 0 }) } else { None } };
         for _ in 0..32 {
             z.bitreorg();
             let w = z.f();
@@ -115,9 +118,7 @@ impl Zuc {
         z
     }
     pub fn with_cov(key: &[u8; 16], iv: &[u8; 16]) -> Self {
-        let mut z = Self::new(key, iv);
-        z.cov = Some(SboxCov { hit: vec![[0; 256]; 4], s16_zero: 0 });
-        z
+        Self::new_impl(key, iv, true)
     }
     fn bitreorg(&mut self) {
         let s = &self.s;
@@ -245,4 +246,42 @@ pub fn eia3(ik: &[u8; 16], count: u32, bearer: u32, direction: u32, length: u32,
     }
     t ^= word_at(length as usize);
     t ^ z[l - 1]
+}
+
+/// Craft (key, IV) pairs for which the LFSR feedback of the FIRST initialisation round is
+/// congruent to 0 modulo 2^31-1, so that the "s16 = 0 -> 2^31-1" replacement is exercised.
+/// In round 1, R1 = R2 = 0, so everything is a direct function of key/IV bytes: solve for s10.
+pub fn craft_s16_zero(base_key: &[u8; 16], base_iv: &[u8; 16]) -> Vec<([u8; 16], [u8; 16])> {
+    let mut out = Vec::new();
+    let inv2_21 = {
+        // inverse of 2^21 modulo 2^31-1 is 2^10 (2^31 = 1)
+        1u64 << 10
+    };
+    // s0 enters with weight (1 + 2^8) * 2^10 after the inversion of 2^21, which stirs the middle bits of s10
+    for k13 in 0..=255u32 {
+        for iv13 in 0..=255u32 {
+            let (mut key, mut iv) = (*base_key, *base_iv);
+            key[0] = k13 as u8;
+            iv[0] = iv13 as u8;
+            let s = |i: usize, key: &[u8; 16], iv: &[u8; 16]| -> u64 { (((key[i] as u32) << 23) | (D[i] << 8) | iv[i] as u32) as u64 };
+            let x0 = (((s(15, &key, &iv) >> 15) << 16) | (s(14, &key, &iv) & 0xffff)) as u32;
+            let u = (x0 >> 1) as u64; // W = X0 in round 1
+            let rest = (rol31(s(15, &key, &iv) as u32, 15) + rol31(s(13, &key, &iv) as u32, 17) + rol31(s(4, &key, &iv) as u32, 20) + rol31(s(0, &key, &iv) as u32, 8) + s(0, &key, &iv) + u) % M31;
+            // need 2^21 * s10 = -rest  (mod M31)
+            let target = ((M31 - rest) % M31) * inv2_21 % M31;
+            for cand in [target, if target == 0 { M31 } else { target }] {
+                let c = cand as u32;
+                if c != 0 && (c >> 8) & 0x7fff == D[10] && c < (1 << 31) {
+                    key[10] = (c >> 23) as u8;
+                    iv[10] = (c & 0xff) as u8;
+                    let mut z = Zuc::new_impl(&key, &iv, true);
+                    let _ = z.next_word();
+                    if z.cov.as_ref().map(|c| c.s16_zero).unwrap_or(0) > 0 && !out.contains(&(key, iv)) {
+                        out.push((key, iv));
+                    }
+                }
+            }
+        }
+    }
+    out
 }
